@@ -421,6 +421,9 @@ pub struct Universe {
     pub label: String,
     pub adts: Vec<AdtDef>,
     pub subjects: Vec<Ty>,
+    /// near-miss pairs (indices into `subjects`): (T, mutant(T)), used by C04
+    #[serde(default)]
+    pub pairs: Vec<(usize, usize)>,
 }
 
 impl Ty {
